@@ -162,6 +162,23 @@ def run(ck, fb, fbd):
     ck.floor("construction_functions", n_fn, 7)
 
 
+def dedup_rule(ck, fb):
+    """entry for other properties (C08: add_face(vertices) builds its halfedges through add_edge's lookup)"""
+    from .lockstep import Ctx
+    ck.rule("C11.dedup", "add_edge without duplicates returns an existing edge only under atomic endpoint facts: to(h) == to-vertex for a halfedge leaving the from-vertex (cache branch), both endpoints in either orientation (linear branch)")
+    c = Ctx(ck, fb)
+    fs = handle_fns(fb, TK, "add_edge")
+    if len(fs) != 1:
+        raise AnalysisBroken("TopologyKernel::add_edge (handle overload) not unique: %d" % len(fs))
+    f = fs[0]
+    grows = [e for e in c.eff.get(f.id, []) if e["cls"] == "grow" and e["role"] == "def" and e["kind"] == "Edge"]
+    if len(grows) != 1:
+        raise AnalysisBroken("add_edge: the append to edges_ is not unique (%d)" % len(grows))
+    rets = [(b, i, x) for b, i, x in f.tops() if x.get("k") == "ret" and b in f.reach()]
+    reject = [(b, i, x) for b, i, x in rets if not f.dominates(grows[0]["pos"], (b, i))]
+    dedup(ck, c, f, reject)
+
+
 def face_chain_rule(ck, fb):
     """entry for other properties (C08: a face is a closed loop, so both of its sides are): C11.topology on add_face"""
     ck.rule("C11.topology", "add_face's topology check rejects unless every halfedge starts where its predecessor ends, and unless the last ends where the first begins")
@@ -286,28 +303,31 @@ def topology_cell(ck, f, reject):
 
 
 def dedup(ck, c, f, reject):
-    pf, pt, pd = [p["n"] for p in f.d["params"][:3]]
+    """add_edge without duplicates, on canonical forms: every returned existing edge is guarded by ATOMIC endpoint facts"""
+    import re
+    from .canon import Canon
+    cn = Canon(f)
     h = c.has_name([k for k, (kk, hf) in c.km.caches.items() if kk == "Vertex"][0])
-    bu = lin = set()
+    vcache = [k for k, (kk, hf) in c.km.caches.items() if kk == "Vertex"][0]
     bu_ok = False
-    lin_sets = []
+    fwd = bwd = False
+    shapes = []
     for b, i, x in reject:
-        at = atoms(f, b)
-        if (pd, False) not in at:
+        fs = {(s_, p_) for s_, p_, c_ in cn.facts(b)}
+        if ("P2", False) not in fs:
             continue
-        if (h, True) in at:
-            if any("to_vertex() == %s" % pt in cnd and pol is True for cnd, pol in at):
+        r = cn.s(x.get("x"))
+        shapes.append((r[:60], sorted(s_ for s_, p_ in fs if p_ and "vertex()" in s_)))
+        if (h, True) in fs:
+            m = re.fullmatch(r"edge_handle\((.+)\)|(.+)\.edge_handle\(\)", r)
+            X = (m.group(1) or m.group(2)) if m else None
+            if X and ("%s[P0]" % vcache) in X and ("(halfedge(%s).to_vertex() == P1)" % X, True) in fs:
                 bu_ok = True
-        elif (h, False) in at:
-            lin_sets.append(frozenset(cnd for cnd, pol in at if pol is True and ("from_vertex()" in cnd or "to_vertex()" in cnd)))
-    # the cache branch walks the halfedges leaving the from-vertex
-    idxs = [estr(n["i"]) for n, parents, pos in __import__("ovmverif.rule_g", fromlist=["iter_sites"]).iter_sites(f) if n.get("k") == "idx" and isinstance(unwrap(n["b"]), dict) and unwrap(n["b"]).get("f") in c.km.caches]
-    bu_ok = bu_ok and pf in idxs
-    (ck.ok if bu_ok else lambda r, w, t: ck.violate(r, w, t, "C11.dedup:cache"))("C11.dedup", f.where, "add_edge (vertex cache on) returns the edge of a halfedge leaving the from-vertex whose to_vertex() is the to-vertex")
-    want1 = {"from_vertex() == %s)" % pf, "to_vertex() == %s)" % pt}
-    want2 = {"from_vertex() == %s)" % pt, "to_vertex() == %s)" % pf}
-
-    def has(s, want):
-        return all(any(w in cnd for cnd in s) for w in want) and len(s) == 2
-    ok = any(has(s, want1) for s in lin_sets) and any(has(s, want2) for s in lin_sets)
-    (ck.ok if ok else lambda r, w, t: ck.violate(r, w, t, "C11.dedup:linear"))("C11.dedup", f.where, "add_edge (linear scan) returns an existing edge for (from,to) and for (to,from) (found %s)" % [sorted(s) for s in lin_sets])
+        elif (h, False) in fs:
+            E = r
+            if {("(edge(%s).from_vertex() == P0)" % E, True), ("(edge(%s).to_vertex() == P1)" % E, True)} <= fs:
+                fwd = True
+            if {("(edge(%s).from_vertex() == P1)" % E, True), ("(edge(%s).to_vertex() == P0)" % E, True)} <= fs:
+                bwd = True
+    (ck.ok if bu_ok else lambda r, w, t: ck.violate(r, w, t, "C11.dedup:cache"))("C11.dedup", f.where, "add_edge (vertex cache on) returns the edge of a halfedge h leaving the from-vertex only under the atomic fact to(h) == to-vertex (%s)" % shapes[-1:])
+    (ck.ok if (fwd and bwd) else lambda r, w, t: ck.violate(r, w, t, "C11.dedup:linear"))("C11.dedup", f.where, "add_edge (linear scan) returns an existing edge for (from,to) and for (to,from), each under both atomic endpoint facts (forward %s, backward %s)" % (fwd, bwd))
